@@ -196,26 +196,31 @@ def py_reader_model(streams, counts, ops):
     """ops: ("R", k) obtain value/iterable of step k; ("N", j) call next() j times on the current iterable;
     ("D",) drain it; ("C",) close.  An iterable is finished once next() has been called past its last item."""
     n, cur = len(streams), 0
-    open_iter, left = False, 0
+    open_iter, left, dead = False, 0, False      # dead: the iterable was closed before it was drained
     for i, op in enumerate(ops):
         if op[0] == "R":
             if open_iter or op[1] != cur:
                 return i
             if streams[cur]:
-                open_iter, left = True, counts[cur]
+                open_iter, left, dead = True, counts[cur], False
             else:
                 cur += 1
         elif op[0] == "D":
-            if open_iter:
+            if open_iter and not dead:
                 open_iter = False
                 cur += 1
         elif op[0] == "N":
-            if open_iter:
+            if open_iter and not dead:
                 if op[1] > left:
                     open_iter = False
                     cur += 1
                 else:
                     left -= op[1]
+        elif op[0] == "A":
+            # abandoning (closing / dropping) an iterable that was not drained does not complete the step,
+            # and a closed generator yields nothing more
+            if open_iter:
+                dead = True
         elif op[0] == "C":
             if open_iter or cur != n:
                 return i
@@ -317,7 +322,10 @@ def legal_py_reader(rng, streams):
         if s:
             if rng.chance(0.5):
                 ops.append(["N", rng.randint(0, 2)])
-            ops.append(["D"])
+            if rng.chance(0.25):
+                ops.append(["A"])          # abandon instead of draining: the step is then NOT complete
+            else:
+                ops.append(["D"])
     ops.append(["C"])
     return ops
 
@@ -369,6 +377,10 @@ def run_py_reader(model, proto, data, ops):
                     for _ in it:
                         pass
                     it = None
+            elif op[0] == "A":
+                # what `break` out of a for loop / del / garbage collection do to the generator
+                if it is not None and hasattr(it, "close"):
+                    it.close()
             else:
                 r.close()
         except Exception as e:  # noqa
@@ -453,7 +465,7 @@ def model_task(task, ybin, root):
                 if why:
                     viols.append(({"class": "step_order_not_enforced" if (exp is not None and (got is None or got > exp)) else "legal_history_rejected", "api": "python_writer"},
                                   doc(model, proto, task, "python_writer", ops, counts, why)))
-                ops, mk = mutate(hr.fork("r"), legal_py_reader(hr.fork("r"), streams), n, lambda r: ["R", r.randrange(n)] if r.chance(0.7) else (["D"] if r.chance(0.5) else ["C"]))
+                ops, mk = mutate(hr.fork("r"), legal_py_reader(hr.fork("r"), streams), n, lambda r: ["R", r.randrange(n)] if r.chance(0.6) else (["D"] if r.chance(0.4) else (["A"] if r.chance(0.5) else ["C"])))
                 exp = py_reader_model(streams, counts, ops)
                 got, exc = run_py_reader(model, proto, data, ops)
                 stats["runs"] += 1
